@@ -52,6 +52,22 @@ def check(report: Report, repo: Repo) -> None:
             report.add("R1-draws", f"{cons}::randint.dtype", dt == T("ext", ("torch.int32",)), "dtype int32 (added to the int32 bit pattern)", fmt(dt), "torch.int32", nontrivial=False)
             dv = TM.term_of(kw.get("device"))
             report.add("R1-draws", f"{cons}::randint.device", dv == T("attr", (T("param", ("x",)), "device")), "drawn on x.device", fmt(dv), "x.device", nontrivial=False)
+        # the draw comes from the ambient random stream and leaves it advanced: nothing in quantise seeds, forks,
+        # saves or restores generator state (that would repeat the same draw on every call)
+        RNG_STATE = ("manual_seed", "seed", "fork_rng", "set_rng_state", "get_rng_state", "initial_seed", "Generator", "manual_seed_all", "set_rng_state_all")
+        touching = []
+        for e in events:
+            name_ = None
+            if e.kind == "call":
+                name_ = str(e["callee"])
+            elif e.kind == "with":
+                name_ = fmt(e["ctx"])
+            elif e.kind == "callv":
+                name_ = fmt(e["callee"])
+            if name_ and "torch" in name_ and any(name_.split("(")[0].rstrip(")").endswith(x_) or ("." + x_ + "(") in name_ or name_.endswith("." + x_) for x_ in RNG_STATE):
+                touching.append(name_[:60])
+        gen_kw = [fmt(e["kwargs"].get("generator")) for e in rcalls if e["kwargs"].get("generator") is not None]
+        report.add("R1-draws", f"{cons}::rng-state", not touching and not gen_kw, "quantise only draws: it does not seed, fork, save or restore random-generator state and uses the ambient generator (successive calls must see fresh draws)", touching + gen_kw, [], nontrivial=False)
         got_i = TM.instances(canon(TM.normalize(TM.term_of(res))))
         exp_i = TM.instances(canon(TM.normalize(TM.term_of(ref_term(it, "stochastic", SR, 0, shape=XS)))))
         if len(got_i) != len(exp_i):
